@@ -110,6 +110,7 @@ func runC20(c *Ctx) {
 		}
 	}
 	c.R.RequireMin("R20.1", "non-mutating set methods analysed", nMethods, 16)
+	checkSetDerivedStateAndHeapEquality(c, p)
 
 	checkHeapAdapter(c, p)
 }
@@ -1219,4 +1220,117 @@ func checkOperandMapsChosen(c *Ctx, p *core.Prog, fn *ssa.Function, typ string) 
 	}
 	c.R.Check(bad == "", "R20.16", typ+"."+fn.Name()+": the map that is walked or probed is an operand's map on every path", p.Pos(fn.Pos()), fmt.Sprintf("%d map variables chosen among the operands", n),
 		"the map used at "+bad+" is nil on some path (no branch assigned it): for that combination of sizes the loop sees no element - two sets of equal size with a common element are reported disjoint")
+}
+
+// checkSetDerivedStateAndHeapEquality: R20.17, R20.18.
+func checkSetDerivedStateAndHeapEquality(c *Ctx, p *core.Prog) {
+	// R20.17: a set is its map. A set type that keeps anything besides the map (bounds, a cached list, a last hit) keeps it in
+	// step wherever the map is written: a function of the package that adds to or deletes from the map of a set also assigns
+	// every other field of that set. Copy, Union, Intersect and Difference fill the map of their result directly - state that
+	// only Insert maintains is wrong for every derived set.
+	for _, spec := range [][2]string{{core.RootMod + "/internal/sets", "StringSet"}, {scPkg + "/internal/sets", "IntSet"}} {
+		nm := p.Named(spec[0], spec[1])
+		if nm == nil {
+			continue
+		}
+		st, _ := nm.Underlying().(*types.Struct)
+		if st == nil {
+			continue
+		}
+		var others []int
+		mapField := -1
+		for i := 0; i < st.NumFields(); i++ {
+			if _, isMap := st.Field(i).Type().Underlying().(*types.Map); isMap && mapField < 0 {
+				mapField = i
+			} else {
+				others = append(others, i)
+			}
+		}
+		if mapField < 0 {
+			continue
+		}
+		if len(others) == 0 {
+			c.R.OK("R20.17", spec[1]+": the set is its map", spec[0], "the struct has no field besides the map")
+			continue
+		}
+		bad := ""
+		nW := 0
+		for _, fn := range pkgFuncs(p, spec[0]) {
+			// bases whose map is written
+			written := map[ssa.Value]bool{}
+			assigned := map[ssa.Value]map[int]bool{}
+			for _, b := range fn.Blocks {
+				for _, in := range b.Instrs {
+					switch x := in.(type) {
+					case *ssa.MapUpdate:
+						if ld, ok := x.Map.(*ssa.UnOp); ok {
+							if fa, ok := ld.X.(*ssa.FieldAddr); ok && fa.Field == mapField && core.StructOf(fa.X.Type()) == st {
+								written[core.Unspill(fa.X)] = true
+							}
+						}
+					case *ssa.Call:
+						if bi, ok := x.Call.Value.(*ssa.Builtin); ok && bi.Name() == "delete" {
+							if ld, ok := x.Call.Args[0].(*ssa.UnOp); ok {
+								if fa, ok := ld.X.(*ssa.FieldAddr); ok && fa.Field == mapField && core.StructOf(fa.X.Type()) == st {
+									written[core.Unspill(fa.X)] = true
+								}
+							}
+						}
+					case *ssa.Store:
+						if fa, ok := x.Addr.(*ssa.FieldAddr); ok && core.StructOf(fa.X.Type()) == st && fa.Field != mapField {
+							b2 := core.Unspill(fa.X)
+							if assigned[b2] == nil {
+								assigned[b2] = map[int]bool{}
+							}
+							assigned[b2][fa.Field] = true
+						}
+					}
+				}
+			}
+			for base := range written {
+				nW++
+				for _, f := range others {
+					if !assigned[base][f] && bad == "" {
+						bad = core.ShortFn(fn) + " writes the map of a " + spec[1] + " but not its field " + st.Field(f).Name()
+					}
+				}
+			}
+		}
+		c.R.Check(bad == "", "R20.17", spec[1]+": state kept besides the map is updated wherever the map is written", spec[0], fmt.Sprintf("%d places where the map of a set is written", nW),
+			bad+": the field describes the elements only for sets built through the functions that maintain it - a set returned by Copy, Union, Intersect or Difference carries stale state, and an operation that trusts it (a range test in Disjoint) answers wrongly")
+	}
+	// R20.18: the queue never compares two elements with == : the elements are interface values of the caller's choosing, and
+	// comparing interface values whose dynamic type is not comparable (a slice, a map, a struct holding one) panics - in the
+	// middle of Push, Pop, Fix or Remove, with the heap half rearranged.
+	{
+		pq := scPkg + "/internal/pq"
+		nC, bad := 0, ""
+		for _, fn := range pkgFuncs(p, pq) {
+			for _, b := range fn.Blocks {
+				for _, in := range b.Instrs {
+					bo, ok := in.(*ssa.BinOp)
+					if !ok || (bo.Op != token.EQL && bo.Op != token.NEQ) {
+						continue
+					}
+					_, xi := bo.X.Type().Underlying().(*types.Interface)
+					_, yi := bo.Y.Type().Underlying().(*types.Interface)
+					if !xi || !yi {
+						continue
+					}
+					if k, isK := bo.X.(*ssa.Const); isK && k.IsNil() {
+						continue
+					}
+					if k, isK := bo.Y.(*ssa.Const); isK && k.IsNil() {
+						continue
+					}
+					nC++
+					if bad == "" {
+						bad = core.ShortFn(fn) + " at " + p.Pos(bo.Pos())
+					}
+				}
+			}
+		}
+		c.R.Check(bad == "", "R20.18", "the queue does not compare its elements with ==", pq, "no comparison of two interface values",
+			"two elements are compared with == ("+bad+"): for elements of a type that is not comparable the comparison panics while the heap is being rearranged, and the queue is left out of order")
+	}
 }
